@@ -56,6 +56,13 @@ def opC18Generate (j : Json) : Except String Json := do
   let api ← (← getArrL j "api").mapM c18Method
   let ss ← (← getArrL j "settings").mapM c18Settings
   let views ← (← getArrL j "views").mapM fun v => do (← v.getArr?).toList.mapM fun s => s.getStr?
+  -- optional selective GAPIC generation: `api` is the declared API, the model prunes it
+  let api ← match j.getObjVal? "selective" with
+    | .ok (Json.null) => pure api
+    | .ok sg => do
+      let allow ← (← getArrL sg "methods").mapM fun s => s.getStr?
+      pure (prune allow (← c18Bool sg "internal") api)
+    | .error _ => pure api
   let errs := generate api (views.map (viewOf api)) ss
   pure (Json.mkObj [("accepted", Json.bool errs.isEmpty),
                     ("errors", jarr (errs.map fun (k, e) => jarr [Json.str k, c18ErrJson e]))])
